@@ -278,7 +278,28 @@ func runC18(c *Ctx) {
 	// LoadedCAPool beside it is the base the file is added to, not a replacement)
 	for _, r := range succ {
 		skip := anyFact(factEqString(optField("CA"), "", true), factNil(optField("LoadedCA"), false))
-		miss := pathExists(f, nil, r, skip, isCallInstrTo("(*crypto/x509.CertPool).AppendCertsFromPEM"))
+		appends := isCallInstrTo("(*crypto/x509.CertPool).AppendCertsFromPEM")
+		// (or a call of a locally selected closure, one of whose candidates appends the file)
+		viaClosure := func(in ssa.Instruction) bool {
+			call, ok := in.(*ssa.Call)
+			if !ok || call.Call.IsInvoke() {
+				return false
+			}
+			if _, isPhi := call.Call.Value.(*ssa.Phi); !isPhi {
+				return false
+			}
+			for _, og := range originsOf(call.Call.Value) {
+				if mc, isMC := og.V.(*ssa.MakeClosure); isMC {
+					for _, ci := range instrs(mc.Fn.(*ssa.Function)) {
+						if appends(ci) {
+							return true
+						}
+					}
+				}
+			}
+			return false
+		}
+		miss := pathExists(f, nil, r, skip, func(in ssa.Instruction) bool { return appends(in) || viaClosure(in) })
 		c.obI("R18.4", r, "CA-file-always-added", !miss, "every success path with opts.CA set (and no opts.LoadedCA) appends the CA file's certificates to the pool: the file is never silently dropped in favour of a supplied pool", "a success path with a CA file given never reads it into the pool")
 	}
 	// the CA material is added to the pool that is stored
